@@ -50,6 +50,10 @@ func main() {
 		genNumCases(r, *n)
 	case "hist":
 		genHistCases(r, *n, *profile)
+	case "garbage":
+		genGarbageCases(r, *n)
+	case "reserved":
+		genReservedCases()
 	default:
 		fmt.Fprintln(os.Stderr, "unknown kind", *kind)
 		os.Exit(2)
